@@ -278,6 +278,8 @@ class _JobMixin(_NodeMixin):
                 return              # absorbs its cancellation, ends normally
             raise
         ctx.log('sd_exit', nid)
+        if spec.get('handler_self_cancel'):
+            raise asyncio.CancelledError()
 
 
 class SimJob(_JobMixin, AbstractJob):
